@@ -209,15 +209,21 @@ def add_header_to_file(
         result = 1
     else:
         try:
+            # Opening the file for writing empties it. Find out first whether
+            # the text can be written at all: a value that came in on the
+            # command line as bytes that are not UTF-8 cannot.
+            (bom + output).encode("utf-8")
             with open(path, "w", encoding="utf-8", newline=line_ending) as fp:
                 fp.write(bom + output)
-        except OSError as error:
+        except (OSError, UnicodeEncodeError) as error:
             out.write(
                 _("Error: Could not write '{path}': {error}").format(
                     path=path, error=error
                 )
             )
             out.write("\n")
+            if created_license_file:
+                path.unlink()
             return 1
         # TODO: This may need to be rephrased more elegantly.
         out.write(_("Successfully changed header of {path}").format(path=path))
